@@ -168,15 +168,19 @@ theorem respStatusLine_noEsc (s s' : RespSt) (l : Bytes) (h : respStatusLine s l
             · simp at h; subst h; simp [RespSt.noEsc, RespSt.escapedCls]
     · simp [h1, h2] at h
 
+theorem respBodyPhase_noEsc (c : Bool) (l : Option Nat) : ∀ cls, respBodyPhase c l ≠ .escaped cls := by
+  intro cls; unfold respBodyPhase; split
+  · simp
+  · split <;> simp
+
 theorem respHeadDone_noEsc (s s' : RespSt) (hd : Hdrs) (h : respHeadDone s hd = .ok s') : s'.noEsc := by
   unfold respHeadDone at h
-  simp only at h
-  by_cases h1 : isChunked hd = true
-  · simp [h1] at h; subst h; simp [RespSt.noEsc, RespSt.escapedCls]
-  · simp [h1] at h
-    split at h
-    · simp at h; subst h; simp [RespSt.noEsc, RespSt.escapedCls]
-    · simp at h; subst h; simp [RespSt.noEsc, RespSt.escapedCls]
+  simp only [Except.ok.injEq] at h
+  subst h
+  simp only [RespSt.noEsc, RespSt.escapedCls]
+  split
+  · rename_i c hc; exact absurd hc (respBodyPhase_noEsc _ _ c)
+  · rfl
 
 theorem respOnLineE_noEsc (s s' : RespSt) (l : Bytes) (hs : s.noEsc) (h : respOnLineE s l = .ok s') : s'.noEsc := by
   unfold respOnLineE at h
